@@ -1401,6 +1401,8 @@ def run(ctx):
         'end-to-end stages run over real loopback TCP: arrival timing is not controlled, so only results that the '
         'theorems show to be timing-independent are compared with the model; a 60 s wall-clock guard detects hangs and '
         'a hang is reported only when it reproduces on a second run',
+        'asynchronously written redirect targets: the queue model (Model/Stream.v astep) is tied to process.py only by the '
+        'end-to-end oracle evaluated at the moment wait()/run()/communicate() return, not by a schedule-level correspondence',
         'process level (wait/run, redirection, drain) is modelled abstractly (Model/Stream.v proc_step, redir_step, '
         'drain_run); SSHChannel flow control itself is the subject of C07/C08',
     ]
